@@ -27,6 +27,7 @@ package vfc03
 //          | "stream" … (see stream.go) | "raw" <type> <hex>
 
 import (
+	"bytes"
 	"fmt"
 	"math"
 	"strconv"
@@ -40,6 +41,9 @@ type Gen struct {
 	used map[string]bool
 	// Kinds restricts the object kinds generated (nil = all)
 	Kinds []string
+	// bigLeft: how many large elements (>= 16 KiB) the current file may still get;
+	// hugeLeft: how many >= 2 MiB ones (set per file by File)
+	bigLeft, hugeLeft int
 }
 
 func NewGen(r *vfutil.Rand) *Gen { return &Gen{R: r, used: map[string]bool{}} }
@@ -48,6 +52,8 @@ func NewGen(r *vfutil.Rand) *Gen { return &Gen{R: r, used: map[string]bool{}} }
 type ExpKey struct {
 	DB       int
 	Key      []byte
+	Idle     int // 0 = none
+	Freq     int // 0 = none
 	ExpireAt uint64
 	Val      *Val
 	Kind     string // description kind (str, lzl, …) for coverage counters
@@ -59,6 +65,8 @@ type Dataset struct {
 	// Scripts expected to be loaded (aux "lua")
 	Scripts [][]byte
 	Footer  string
+	// ModuleAux: the file carries module aux data (refused or skipped by policy)
+	ModuleAux bool
 }
 
 func (g *Gen) lenForm(n int) string {
@@ -225,8 +233,8 @@ func (g *Gen) Key() (string, []byte) {
 			k = g.bytesVal(20)
 			tok = "r" + g.lenForm(len(k)) + ":" + hx(k)
 		}
-		if len(k) == 0 || g.used[string(k)] {
-			continue
+		if g.used[string(k)] || (len(k) == 0 && !g.R.Chance(1, 10)) {
+			continue // ("" is a valid key: kept now and then)
 		}
 		if strings.HasPrefix(string(k), "redis-gunyu") || strings.HasPrefix(string(k), "/redis-gunyu") {
 			continue
@@ -261,7 +269,28 @@ func (g *Gen) wrap() string {
 
 // ---------------------------------------------------------------- ziplist / listpack entries
 
+// bigElem: a large element as a repeat token "*<n>.<hexbyte>" (sizes around the
+// listpack back-length steps 16383 and 2097151)
+func (g *Gen) bigElem() (string, []byte, bool) {
+	n := 0
+	switch {
+	case g.hugeLeft > 0 && g.R.Chance(1, 3):
+		g.hugeLeft--
+		n = g.R.Range(2097140, 2097160)
+	case g.bigLeft > 0 && g.R.Chance(1, 3):
+		g.bigLeft--
+		n = g.R.Range(16370, 16400)
+	default:
+		return "", nil, false
+	}
+	b := byte('a' + g.R.Intn(26))
+	return fmt.Sprintf("*%d.%02x", n, b), bytes.Repeat([]byte{b}, n), true
+}
+
 func (g *Gen) zlEntry() (string, []byte) {
+	if t, v, ok := g.bigElem(); ok {
+		return "s32:" + t, v
+	}
 	big := ""
 	if g.R.Chance(1, 6) {
 		big = "!"
@@ -301,6 +330,9 @@ func (g *Gen) zlEntry() (string, []byte) {
 }
 
 func (g *Gen) lpEntry() (string, []byte) {
+	if t, v, ok := g.bigElem(); ok {
+		return "s32:" + t, v
+	}
 	switch g.R.Intn(7) {
 	case 0, 1, 2:
 		v := g.intVal()
@@ -590,13 +622,42 @@ func (g *Gen) ObjKind(kind string) (string, *Val, string) {
 		return strings.Join(toks, " "), v, kind
 	case "stream":
 		return g.Stream()
+	case "mod2":
+		t := g.modulePayload()
+		return "mod2 " + t, &Val{Kind: "module"}, kind
 	}
 	panic("unknown kind " + kind)
+}
+
+// modulePayload: "<id> <n> OP*" (module value or module aux data)
+func (g *Gen) modulePayload() string {
+	n := g.R.Intn(5)
+	toks := []string{strconv.FormatUint(g.R.U64(), 10), strconv.Itoa(n)}
+	for i := 0; i < n; i++ {
+		switch g.R.Intn(5) {
+		case 0:
+			toks = append(toks, "i:"+strconv.FormatUint(g.R.U64()>>uint(g.R.Intn(64)), 10))
+		case 1:
+			toks = append(toks, "u:"+strconv.FormatUint(g.R.U64()>>uint(g.R.Intn(64)), 10))
+		case 2:
+			toks = append(toks, "f:"+hx(g.R.Bytes(4)))
+		case 3:
+			toks = append(toks, "d:"+hx(g.R.Bytes(8)))
+		default:
+			t, _ := g.SE()
+			toks = append(toks, "s", t)
+		}
+	}
+	return strings.Join(toks, " ")
 }
 
 // ---------------------------------------------------------------- file
 
 type FileOpts struct {
+	// Modules: module values (type 7) and module aux data may be generated
+	Modules bool
+	// Huge: the file may carry one element >= 2 MiB
+	Huge bool
 	// Reserved: keys under the reserved prefixes are generated too, preferably as the
 	// first key of a database
 	Reserved bool
@@ -609,6 +670,13 @@ type FileOpts struct {
 func (g *Gen) File(o FileOpts) *Dataset {
 	g.used = map[string]bool{}
 	ds := &Dataset{}
+	g.bigLeft, g.hugeLeft = 0, 0
+	if g.R.Chance(1, 8) {
+		g.bigLeft = 1
+	}
+	if o.Huge {
+		g.hugeLeft = 1
+	}
 	ver := 9
 	if len(o.Versions) > 0 {
 		ver = vfutil.Pick(g.R, o.Versions)
@@ -623,8 +691,15 @@ func (g *Gen) File(o FileOpts) *Dataset {
 		toks = append(toks, "aux", "ra:"+hx([]byte("lua")), t)
 		ds.Scripts = append(ds.Scripts, v)
 	}
+	if o.Modules && g.R.Chance(1, 12) {
+		toks = append(toks, "modaux", g.modulePayload())
+		ds.ModuleAux = true
+	}
 	db := 0
 	nk := g.R.Intn(o.MaxKeys + 1)
+	if o.Huge && nk == 0 {
+		nk = 1
+	}
 	first := true
 	for i := 0; i < nk; i++ {
 		newDB := false
@@ -650,8 +725,8 @@ func (g *Gen) File(o FileOpts) *Dataset {
 		exp := "-"
 		var expAt uint64
 		switch g.R.Intn(8) {
-		case 0: // future, ms
-			expAt = o.Now + uint64(g.R.Range(1, 100000))
+		case 0: // future, ms (far enough ahead that it stays in the future while the replay runs)
+			expAt = o.Now + uint64(g.R.Range(5000, 100000))
 			exp = "ms:" + strconv.FormatUint(expAt, 10)
 		case 1: // past, ms
 			expAt = o.Now - uint64(g.R.Range(1, 100000))
@@ -660,25 +735,45 @@ func (g *Gen) File(o FileOpts) *Dataset {
 			expAt = o.Now
 			exp = "ms:" + strconv.FormatUint(expAt, 10)
 		case 3: // seconds form
-			s := o.Now/1000 + uint64(g.R.Range(0, 200)) - 100
+			off := g.R.Range(5, 200)
+			if g.R.Bool() {
+				off = -g.R.Range(5, 100)
+			}
+			s := uint64(int64(o.Now/1000) + int64(off))
 			expAt = s * 1000
 			exp = "s:" + strconv.FormatUint(s, 10)
 		}
 		idle, freq := "-", "-"
+		idleN, freqN := 0, 0
 		if g.R.Chance(1, 6) {
-			n := g.R.Intn(100000)
-			idle = g.lenForm(n) + ":" + strconv.Itoa(n)
+			idleN = g.R.Intn(100000)
+			idle = g.lenForm(idleN) + ":" + strconv.Itoa(idleN)
 		}
 		if g.R.Chance(1, 6) {
-			freq = strconv.Itoa(g.R.Intn(256))
+			freqN = g.R.Intn(256)
+			freq = strconv.Itoa(freqN)
 		}
 		kt, k := g.Key()
 		if o.Reserved && ((newDB && g.R.Chance(1, 3)) || g.R.Chance(1, 20)) {
 			kt, k = g.KeyReserved()
+		} else if o.MultiDB && len(ds.Keys) > 0 && g.R.Chance(1, 6) {
+			// the same key name in another source DB
+			prev := vfutil.Pick(g.R, ds.Keys)
+			if prev.DB != db && !g.used[fmt.Sprintf("%d/%s", db, prev.Key)] {
+				k = prev.Key
+				kt = "r" + g.lenForm(len(k)) + ":" + hx(k)
+			}
 		}
-		ot, val, kind := g.Obj()
+		g.used[fmt.Sprintf("%d/%s", db, k)] = true
+		var ot, kind string
+		var val *Val
+		if o.Modules && g.R.Chance(1, 25) {
+			ot, val, kind = g.ObjKind("mod2")
+		} else {
+			ot, val, kind = g.Obj()
+		}
 		toks = append(toks, "k", exp, idle, freq, kt, ot)
-		ds.Keys = append(ds.Keys, ExpKey{DB: db, Key: k, ExpireAt: expAt, Val: val, Kind: kind})
+		ds.Keys = append(ds.Keys, ExpKey{DB: db, Key: k, Idle: idleN, Freq: freqN, ExpireAt: expAt, Val: val, Kind: kind})
 	}
 	ds.Footer = "good"
 	if g.R.Chance(1, 6) {
